@@ -1293,10 +1293,35 @@ type enumLoop struct {
 	// EmptyStart: the instance starts with an EMPTY LMDB and no peer ever publishes; the application inserts one
 	// key (published) and the change under test - a deletion - removes it again: the LMDB holds no live data then
 	EmptyStart bool `json:"empty_start,omitempty"`
+	// NewDBIFirst: all local data lives in the SECOND DBI (by name); the later peer snapshot brings a DBI that does not
+	// exist locally and sorts first, plus an OLDER version of the key the application overwrites
+	NewDBIFirst bool `json:"new_dbi_first,omitempty"`
 }
 
 func (e enumLoop) toCase() LoopCase {
 	c := LoopCase{Native: e.Native, ReceiveOnly: e.ReceiveOnly, Sweeper: e.Sweeper, Force: e.Force, SweeperRuns: e.SweeperRuns, OwnAtStart: e.OwnAtStart}
+	if e.NewDBIFirst {
+		ts := uint64(0)
+		if e.Native {
+			ts = 20
+		}
+		peerTS := func(n uint64) uint64 {
+			if e.Native {
+				return n
+			}
+			return 1_000_000_000_000_000_000 + n
+		}
+		c.Start = []SChange{{DBI: 1, Key: 0, Op: "put", Val: model.Bytes("v0"), TS: ts}, {DBI: 1, Key: 1, Op: "put", Val: model.Bytes("v0"), TS: ts}}
+		c.Plan = []SAct{
+			{Kind: "deliver", At: "sync.before-sleep", Peer: []SPeer{{DBI: 1, Key: 2, TS: peerTS(15), Val: model.Bytes("p")}}},
+			{Kind: "app", At: e.Point, Changes: []SChange{{DBI: 1, Key: 0, Op: "put", Val: model.Bytes("v1"), TS: 30}}, Held: e.Held},
+			{Kind: "deliver", At: "sync.before-sleep", Peer: []SPeer{
+				{DBI: 0, Key: 4, TS: peerTS(25), Val: model.Bytes("in-a-new-dbi")},
+				{DBI: 1, Key: 0, TS: peerTS(25), Val: model.Bytes("stale")},
+				{DBI: 1, Key: 3, TS: peerTS(25), Val: model.Bytes("late")}}},
+		}
+		return c
+	}
 	if e.EmptyStart {
 		ts := uint64(0)
 		if e.Native {
@@ -1411,6 +1436,14 @@ func TestC03Enum(t *testing.T) {
 						// the same commit on a receive-only instance (captures, merges, never uploads)
 						if !yield(enumLoop{Native: native, Point: p, Kind: k, PeerNoop: false, LocalFirst: true, ReceiveOnly: true}) {
 							return
+						}
+						// the later peer snapshot creates a DBI that sorts before the one holding the application's newer version
+						if k == "overwrite" {
+							for _, held := range []bool{false, true} {
+								if !yield(enumLoop{Native: native, Point: p, Kind: k, NewDBIFirst: true, Held: held}) {
+									return
+								}
+							}
 						}
 						// an instance that started empty and has no peers: the application deletes the only key it ever wrote
 						if k == "delete" {
